@@ -32,6 +32,7 @@ PROGS = collections.OrderedDict([
     ("regref-negpow", H + "\nMeasureX | 0\nG(-(q0**2)*q1, {a}) | 2\nH(p=-(q1**3)) | 3\n"),
     ("pstring", H + "\nG(\"p1\", {a}, tag=\"p20\", l=[\"p0\"]) | 0\n"),
     ("affine", H + "\nG(2*{a}-1, 1-{b}/3) | 0\nH(k=0.5*{a}*{b}-{a}+2) | 1\n"),
+    ("unsimplified", H + "\nG(({a}**2 - 1)/({a} - 1), {a}*({a}+2) - {a}**2) | 0\nH(k=({a}+{b})**2 - {a}**2, l=[({b}**2-4)/({b}+2)]) | 1\n"),
     ("tdm-template", H + "type tdm (temporal_modes=3)\n\nfloat array p0 =\n    0.5, 1.5\nG(p0, {a}) | 0\n"),
 ])
 V1 = {"a": 0.5, "b": 2.0, "P": [[1.0, 2.0]]}
